@@ -5,7 +5,7 @@
     (Wire area); C14 judges it on the implementation's output with two independent RFC 1071
     implementations (harness, [Scmp.Spec.packet_checksum_ok]). *)
 From Coq Require Import Lia ZifyBool ZifyNat ZifyN.
-From Sci Require Import Scmp.Model Scmp.Spec Scmp.Proofs Scmp.Bytes.
+From Sci Require Import Scmp.Model Scmp.Spec Scmp.Proofs Scmp.Bytes Scmp.SpecTie Scmp.NoPanic.
 Local Open Scope N_scope.
 
 (** ** Every SCMP error packet is at most 1232 bytes long.
@@ -104,6 +104,19 @@ Proof.
 Qed.
 Print Assumptions echo_reply_faithful.
 
+(** The same, by literal offsets, for every decodable raw packet: the reply's SCMP message is
+    the request's message from byte 4 on (identifier, sequence number, data) behind type 129,
+    code 0 and the checksum field. *)
+Theorem echo_reply_literal :
+  forall (v : bytes) (p : dppath) (r : reply),
+    bytes_ok v = true -> required_size_raw v = Ok (blen v) -> echo_handle v p = Ok (Some r) ->
+    rp_payload r = [129; 0; 0; 0] ++ skipn 4 (sp_payload v) /\
+    rp_id r = 256 * nthN (sp_payload v) 4 + nthN (sp_payload v) 5 /\
+    rp_seq r = 256 * nthN (sp_payload v) 6 + nthN (sp_payload v) 7 /\
+    rp_data r = skipn 8 (sp_payload v).
+Proof. exact echo_reply_is_literal. Qed.
+Print Assumptions echo_reply_literal.
+
 (** what "reversed" means for a standard path: same segments in reverse order, each with its
     hop fields in reverse order (hop fields themselves untouched, so the MACs stay valid), the
     construction-direction flag of every info field toggled, current indices mirrored *)
@@ -141,6 +154,32 @@ Proof.
     exact (echo_handle_answers v p sv rp sa da H1 H2 H3 H4 H5).
 Qed.
 Print Assumptions reply_iff_echo_request.
+
+(** The same, with "is an SCMP echo request" read off the bytes by literal offsets
+    ([Spec.spec_is_echo_request]: byte 4 = 202, header length 4 * byte 5, payload length in
+    bytes 6-7 clipped to what is there, at least 8 payload bytes, first payload byte = 128),
+    for every decodable raw packet (what the underlay hands to the socket: every byte < 256,
+    [ScionRawPacketView::try_from_slice] accepts the whole buffer). *)
+Theorem reply_iff_echo_request_literal :
+  forall (v : bytes) (p : dppath),
+    bytes_ok v = true -> required_size_raw v = Ok (blen v) ->
+    ((exists r, echo_handle v p = Ok (Some r)) <->
+     spec_is_echo_request v = true /\
+     (exists rp, dp_reverse p = Some rp) /\
+     (exists a, src_scion_addr v = Ok (Some a)) /\ (exists a, dst_scion_addr v = Ok (Some a))).
+Proof.
+  intros v p Hb Hr. rewrite reply_iff_echo_request.
+  rewrite <- (echo_request_reading_is_literal v Hb Hr).
+  assert (E : T_ECHO_REQUEST = 128) by reflexivity.
+  assert (R : (exists sv, as_scmp v = Ok (Some sv) /\ scmp_type sv = Ok 128) <-> reads_as_echo_request v = true).
+  { unfold reads_as_echo_request. split.
+    - intros (sv & H1 & H2). rewrite H1, H2, E. reflexivity.
+    - destruct (as_scmp v) as [[sv|]| |]; try discriminate.
+      destruct (scmp_type sv) as [t| |] eqn:Et; try discriminate.
+      intros H. apply N.eqb_eq in H. rewrite E in H. subst t. exists sv. split; [reflexivity|exact Et]. }
+  rewrite R. reflexivity.
+Qed.
+Print Assumptions reply_iff_echo_request_literal.
 
 (** Hence: no reply to a packet that is not SCMP or whose SCMP payload is too short to parse
     ([as_scmp v = Ok None]: truncated input), none to any other SCMP type -- in particular none
@@ -196,8 +235,11 @@ Print Assumptions no_scmp_error_is_answered_partial.
 
 (** ** The receive loop: received SCMP errors reach the receivers; datagram delivery is unaffected.
 
-    For every stream of received packets on which no step panics, with or without the echo
-    handler installed, and for every caller buffer size:
+    For every stream of decodable raw packets (what the underlay hands to the socket: every
+    byte < 256 and [ScionRawPacketView::try_from_slice] accepts the whole buffer), with or
+    without the echo handler installed, and for every caller buffer size:
+    (0) no step panics: neither handler nor the UDP branch can end the receive task, whatever
+        the packets contain (truncated SCMP, wrong lengths, unknown types, odd addresses);
     (1) the datagrams handed to the application are exactly those of the UDP packets of the
         stream, as if the SCMP (and other non-UDP) packets had never arrived, and independent
         of the installed handlers;
@@ -208,7 +250,8 @@ Print Assumptions no_scmp_error_is_answered_partial.
         -- by [reply_iff_echo_request], one per echo request and none for anything else. *)
 Theorem errors_reach_receivers_and_datagrams_unaffected :
   forall (with_echo : bool) (buflen : N) (pkts : list (bytes * dppath)),
-    no_panic (recv_stream with_echo buflen pkts) ->
+    (forall vp, In vp pkts -> bytes_ok (fst vp) = true /\ required_size_raw (fst vp) = Ok (blen (fst vp))) ->
+    no_panic (recv_stream with_echo buflen pkts) /\
     (forall with_echo',
        dgrams_of (recv_stream with_echo buflen pkts)
        = dgrams_of (recv_stream with_echo' buflen (filter (fun vp : bytes * dppath => is_udp (fst vp)) pkts))) /\
@@ -223,12 +266,56 @@ Theorem errors_reach_receivers_and_datagrams_unaffected :
                   then match echo_handle (fst vp) (snd vp) with Ok o => opt_list o | _ => [] end
                   else []) pkts.
 Proof.
-  intros we b pkts NP. refine (conj _ (conj _ _)).
+  intros we b pkts Hraw. pose proof (recv_stream_never_panics we b pkts Hraw) as NP.
+  refine (conj NP (conj _ (conj _ _))).
   - intros we'. apply datagrams_unaffected. exact NP.
   - apply errors_reach_receivers. exact NP.
   - apply replies_exact. exact NP.
 Qed.
 Print Assumptions errors_reach_receivers_and_datagrams_unaffected.
+
+(** What reaches the receivers, read off the bytes by literal offsets.  For every stream of
+    decodable raw packets:
+    (1) every error callback was caused by a packet of the stream that literally is an SCMP
+        message (byte 4 = 202) of one of the five defined error types with its fixed part
+        complete, and carries that type and, as offending packet, exactly the bytes after the
+        fixed part;
+    (2) conversely every such packet of the stream causes a callback with its type and quote.
+    PARTIAL with respect to "received SCMP errors": SCMP errors of types without a model
+    (type < 128 other than 1, 2, 4, 5, 6) cause no callback (finding
+    C14-unknown-error-type-not-reported, [Findings.unknown_error_type_not_reported]). *)
+Theorem received_errors_reach_receivers_literal_partial :
+  forall (with_echo : bool) (buflen : N) (pkts : list (bytes * dppath)),
+    (forall vp, In vp pkts -> bytes_ok (fst vp) = true /\ required_size_raw (fst vp) = Ok (blen (fst vp))) ->
+    (forall cb, In cb (errs_of (recv_stream with_echo buflen pkts)) ->
+       exists v p, In (v, p) pkts /\ spec_is_known_error v = true /\
+                   e_ty (cb_msg cb) = sp_scmp_type v /\ err_quote v = Some (e_off (cb_msg cb))) /\
+    (forall v p, In (v, p) pkts -> spec_is_known_error v = true ->
+       exists cb, In cb (errs_of (recv_stream with_echo buflen pkts)) /\
+                  e_ty (cb_msg cb) = sp_scmp_type v /\ err_quote v = Some (e_off (cb_msg cb))).
+Proof.
+  intros we b pkts Hraw. pose proof (recv_stream_never_panics we b pkts Hraw) as NP.
+  rewrite (errors_reach_receivers we b pkts NP). split.
+  - intros cb Hin. apply in_flat_map in Hin. destruct Hin as ([v p] & Hvp & Hcb). cbn [fst] in Hcb.
+    destruct (is_scmp v); [|destruct Hcb].
+    destruct (err_handle v) as [[cb'|]| |] eqn:E; cbn in Hcb; try contradiction.
+    destruct Hcb as [Hcb|[]]. subst cb'.
+    destruct (Hraw _ Hvp) as [Hb Hr]. cbn [fst] in Hb, Hr.
+    destruct (reported_error_is_literal v cb Hb Hr E) as (H1 & H2 & H3).
+    exists v, p. repeat split; assumption.
+  - intros v p Hin Hk. pose proof (Hraw _ Hin) as R. cbn [fst] in R.
+    destruct (known_error_reported v R Hk) as (cb & E). destruct R as [Hb Hr].
+    destruct (reported_error_is_literal v cb Hb Hr E) as (_ & H2 & H3).
+    exists cb. split; [|split; assumption].
+    apply in_flat_map. exists (v, p). split; [exact Hin|]. cbn [fst].
+    assert (Hs : is_scmp v = true).
+    { unfold is_scmp, nh_of. unfold required_size_raw, obind in Hr.
+      destruct (header_layout v) as [l| |] eqn:Hl; try discriminate.
+      rewrite (raw_pkt_header v l Hb Hl). cbn [obind]. rewrite (raw_next_header v l Hb Hl).
+      unfold spec_is_known_error in Hk. apply andb_prop in Hk. destruct Hk as [Hk _]. exact Hk. }
+    rewrite Hs, E. left. reflexivity.
+Qed.
+Print Assumptions received_errors_reach_receivers_literal_partial.
 
 (** ** non-vacuity *)
 
